@@ -379,6 +379,14 @@ impl ClusterHandler for GenCommHandler<'_> {
                 let pase_sess_id =
                     matches!(sess.get_session_mode(), SessionMode::Pase { .. }).then(|| sess.id());
 
+                // Only the session context (accessing fabric) the fail-safe is
+                // associated with may force it to expire: for anybody else the
+                // Matter Core spec mandates `BusyWithOtherAdmin` and an unchanged
+                // fail-safe state (same rule as for re-arming in `FailSafe::arm`).
+                if state.failsafe.is_armed() {
+                    state.failsafe.check_armed(sess.get_session_mode())?;
+                }
+
                 removed_fabric = state.failsafe.expire(
                     &mut state.fabrics,
                     &mut state.sessions,
